@@ -401,6 +401,13 @@ impl Compiler {
     }
 }
 
+/// Integer key whose order is IEEE 754 totalOrder of `x` (as `f64::total_cmp`).
+#[inline(always)]
+fn total_order_key(x: f64) -> i64 {
+    let b = x.to_bits() as i64;
+    b ^ ((((b >> 63) as u64) >> 1) as i64)
+}
+
 fn lit_f64(v: &ScalarValue) -> Option<f64> {
     match v {
         ScalarValue::Float64(x) => Some((*x).into()),
@@ -750,7 +757,30 @@ impl CompiledPredicate {
                         Src::Reg(r) => FOp::Slice(&f[*r as usize][..len]),
                         other => resolve(other),
                     };
-                    cmp_loop!(a_op, b_op, op, *dst, FOp);
+                    // Compare f64 the way the interpreter's arrow kernels do:
+                    // IEEE 754 totalOrder (-0.0 < 0.0, NaN above +inf and
+                    // equal to itself), not PartialOrd. Keys are the
+                    // `f64::total_cmp` integer transform.
+                    let (mut ka, mut kb) = ([0i64; CHUNK], [0i64; CHUNK]);
+                    let a_key = match a_op {
+                        FOp::Slice(s) => {
+                            for i in 0..len {
+                                ka[i] = total_order_key(s[i]);
+                            }
+                            IOp::Slice(&ka[..len])
+                        }
+                        FOp::Scalar(v) => IOp::Scalar(total_order_key(v)),
+                    };
+                    let b_key = match b_op {
+                        FOp::Slice(s) => {
+                            for i in 0..len {
+                                kb[i] = total_order_key(s[i]);
+                            }
+                            IOp::Slice(&kb[..len])
+                        }
+                        FOp::Scalar(v) => IOp::Scalar(total_order_key(v)),
+                    };
+                    cmp_loop!(a_key, b_key, op, *dst, IOp);
                 }
                 Instr::CmpI64 { a, b, op, dst } => {
                     let resolve = |src: &Src| -> IOp<'_> {
